@@ -109,9 +109,11 @@ func checkConsistency(prop string, l *Layout, p *PlanSnap, v *vset) {
 	if pst != StCompleted && pst != StFailed {
 		v.addf(prop, prop+".r1", "final plan is "+stName(pst), nil, "plan %s returned in status %s", pp, stName(pst))
 	}
-	// r2 nothing Running
+	// r2 nothing Running (one class per kind of object, so that combinations do not multiply classes)
 	if shape := runningShape(l, p); shape != "" {
-		v.addf(prop, prop+".r2", "final plan has Running objects: "+shape, nil, "plan %s (%s) still has Running: %s", pp, stName(pst), shape)
+		for _, k := range strings.Split(shape, ", ") {
+			v.addf(prop, prop+".r2", "final plan has a Running "+k, nil, "plan %s (%s) still has Running: %s", pp, stName(pst), shape)
+		}
 	}
 	// r5 consistency
 	if pst == StCompleted && !bypassed(l, p, pp) {
@@ -194,7 +196,7 @@ func checkConsistency(prop string, l *Layout, p *PlanSnap, v *vset) {
 				}
 			}
 		}
-		if st.Start > st.End {
+		if st.Start > st.End && !(st.End == 0 && st.Status == StRunning) { // a Running object is r2's business
 			shape := "start > end on a " + kindLabel(o)
 			if st.End == 0 {
 				shape = stName(st.Status) + " " + kindLabel(o) + " has a start but no end"
